@@ -296,20 +296,21 @@ func hostport(s string) (host, port string) {
 // which does not alloc.
 func atoi(b *bytes.Buffer, i int64, pad int) {
 	var flag bool
+	u := uint64(i)
 	if i < 0 {
 		flag = true
-		i = -i
+		u = -u // magnitude; also correct for math.MinInt64
 	}
 
 	// format number
-	// 2^63-1 == 9223372036854775807
+	// 2^63 == 9223372036854775808
 	var d [128]byte
 	n, p := len(d), len(d)-1
-	for i >= 0 {
-		d[p] = byte('0') + byte(i%10)
-		i /= 10
+	for {
+		d[p] = byte('0') + byte(u%10)
+		u /= 10
 		p--
-		if i == 0 {
+		if u == 0 {
 			break
 		}
 	}
